@@ -217,6 +217,8 @@ def run(index, rep, tier):
         _containment_rule(index, rep)
     with rep.section("R18.5"):
         _stretch_rule(index, rep)
+    with rep.section("R18.6"):
+        _input_purity_rule(index, rep)
 
 
 def _distinct_labels_rule(index, rep):
@@ -355,3 +357,62 @@ def _stretch_rule(index, rep):
                   "coalesce_nodes stretches the lineages by `%s` wrongly when the edge %s: it ends up as %s instead of %s. A fresh gene lineage (no length yet) then loses the first waiting time, so lineages of different species can join more recently than the species diverged and the gene tree is not ultrametric"
                   % (add, "has no length yet" if True in bad else "already has a length", bad, {k: want[k] for k in bad}))
     rep.floor("R18.5", "stretch loops in coalesce_nodes", 1, n)
+
+
+def _input_purity_rule(index, rep):
+    """R18.6: a simulator leaves the trees it is given as it found them (unless decoration of the input was asked for):
+    otherwise a second call on the same species tree starts from what the first one left behind."""
+    rep.rule("R18.6", "simulators do not write to the trees they are given: no attribute store / mutator call on the containing (population / species) tree argument or on nodes and edges reached from it, except under an explicit decorate_* option")
+    n = 0
+    for q in ("dendropy.model.coalescent.constrained_kingman_tree", "dendropy.model.coalescent.contained_coalescent_tree"):
+        f = index.function(q)
+        trees = [p_ for p_ in f.params if p_.endswith("_tree") and p_ not in ("gene_tree",)]
+        if not trees:
+            raise AnalysisError("R18.6: %s has no tree parameter" % q)
+        pm = parent_map(f.node)
+
+        def under_decorate(node):
+            cur = node
+            while cur is not None and cur is not f.node:
+                par = pm.get(cur)
+                if isinstance(par, ast.If):
+                    t_, tb_, fb_ = pos_if(par)
+                    if isinstance(t_, ast.Name) and t_.id.startswith("decorate") and any(cur is x for x in tb_):
+                        return True
+                cur = par
+            return False
+        # names that may denote (a part of) the input tree when no decoration was requested
+        tainted = set(trees)
+        changed = True
+        while changed:
+            changed = False
+            for a in walk_no_nested(f.node):
+                tg = val = None
+                if isinstance(a, ast.Assign) and not under_decorate(a):
+                    tg, val = a.targets, a.value
+                elif isinstance(a, ast.For):
+                    tg, val = [a.target], a.iter
+                if tg is None:
+                    continue
+                if isinstance(val, ast.Call) and isinstance(val.func, (ast.Name, ast.Attribute)) and (call_name(val) in ("Tree", "Node", "list", "dict", "set") and not (call_name(val) == "list")):
+                    continue        # a constructor / copy yields a new object
+                if isinstance(val, ast.Call) and norm(val.func) in ("dendropy.Tree", "copy.deepcopy"):
+                    continue
+                if names_in(val) & tainted:
+                    for t in tg:
+                        for nm in ast.walk(t):
+                            if isinstance(nm, ast.Name) and isinstance(nm.ctx, ast.Store) and nm.id not in tainted:
+                                tainted.add(nm.id)
+                                changed = True
+        bad = []
+        for w in writes_in(f.node):
+            root = w.base
+            while isinstance(root, (ast.Attribute, ast.Subscript)):
+                root = root.value
+            if isinstance(root, ast.Name) and root.id in tainted and not under_decorate(w.stmt):
+                bad.append(w)
+        n += 1
+        rep.check(not bad, "R18.6", f.qualname, "input tree written: %s" % (norm_stmt(bad[0].stmt)[:60] if bad else ""), fn_where(f, bad[0].stmt if bad else None),
+                  "%s does not write to %s (names reaching it without decoration: %s)" % (f.name, "/".join(trees), sorted(tainted)),
+                  "%s stores to the tree it was given (`%s`) although decoration of the input was not requested: the attribute stays on the caller's tree, so a second simulation on the same species tree starts from the first one's leftovers (e.g. gene nodes accumulate and the gene tree gets 8, 12, ... leaves for 4 taxa)" % (f.qualname, norm_stmt(bad[0].stmt)[:70] if bad else ""))
+    rep.floor("R18.6", "simulators taking a containing tree", 2, n)
